@@ -5,7 +5,6 @@
 -/
 import FlacModel.Model.Decode
 import FlacModel.Proofs.Sync
-import FlacModel.Props.C01
 import FlacModel.Proofs.Local
 
 namespace Flac
@@ -128,7 +127,15 @@ theorem readN_flatMap {α : Type} (p : P α) (w : α → Bits) (xs : List α) (r
     negative 32-bit value too; the RFC forbids it and the encoder never produces it) -/
 def resOk (r : Int) : Prop := -2147483648 ≤ r ∧ r < 2147483648
 
-/-- `Flac.C01.fold_unfold` including the most negative value -/
+theorem join_split' (n m : Nat) (hn : n < 4294967296) :
+    (n / m % 4294967296 * m) % 4294967296 + n % m = n := by
+  have h1 : n / m % 4294967296 = n / m :=
+    Nat.mod_eq_of_lt (Nat.lt_of_le_of_lt (Nat.div_le_self _ _) hn)
+  have h2 : n / m * m ≤ n := Nat.div_mul_le_self _ _
+  rw [h1, Nat.mod_eq_of_lt (Nat.lt_of_le_of_lt h2 hn)]
+  exact Nat.div_add_mod' _ _
+
+/-- Rice fold/unfold for every residual a 32-bit folded value can carry, the most negative value included -/
 theorem fold_unfold' (k : Nat) (r : Int) (h0 : -2147483648 ≤ r) (h1 : r < 2147483648) :
     unfoldRice k (foldRice r / 2 ^ k) (foldRice r % 2 ^ k) = r := by
   have hfold : foldRice r < 4294967296 := by
@@ -136,7 +143,7 @@ theorem fold_unfold' (k : Nat) (r : Int) (h0 : -2147483648 ≤ r) (h1 : r < 2147
   have hv : ((foldRice r : Nat) : Int) = if r < 0 then (-r - 1) * 2 + 1 else r * 2 := by
     unfold foldRice; split <;> omega
   unfold unfoldRice
-  rw [Flac.C01.join_split _ _ hfold]
+  rw [join_split' _ _ hfold]
   generalize foldRice r = n at *
   by_cases hodd : n % 2 = 1
   · have : (n % 2 == 1) = true := by simp [hodd]
